@@ -178,13 +178,15 @@ IvFunClauses(ev) ==
   IF ev.o.k = "x" THEN (IF ev.x.mayraise THEN {} ELSE {"post"})
   ELSE CASE ev.op = "ivfun" ->
               LET v == Iv(ev.o)  xs == Pts(ev.x.xs)
+                  KC == Consts(ev.x.w + 66)                 \* the harness keeps |x| < 2^62
               IN IF ~IvOK(v) THEN {"post"}
-                 ELSE Verdicts({ IF ev.x.f = "atan2" THEN EnclMember(v, Atan2Encl(xs[i], Pts(ev.x.ys)[i], ev.x.w))
-                                 ELSE EnclMember(v, Encl(ev.x.f, xs[i], ev.x.w)) : i \in 1..Len(xs) })
+                 ELSE Verdicts({ IF ev.x.f = "atan2" THEN EnclMember(v, Atan2EnclK(xs[i], Pts(ev.x.ys)[i], ev.x.w, KC))
+                                 ELSE EnclMember(v, EnclK(ev.x.f, xs[i], ev.x.w, KC)) : i \in 1..Len(xs) })
          [] ev.op = "civfun" ->
               LET re == Iv(ev.o.re)  im == Iv(ev.o.im)  zs == CPts(ev.x.zs)
+                  KC == Consts(ev.x.w + 66)
               IN IF ~IvOK(re) \/ ~IvOK(im) THEN {"post"}
-                 ELSE Verdicts(UNION { LET c == CEncl(ev.x.f, zs[i][1], zs[i][2], ev.x.w)
+                 ELSE Verdicts(UNION { LET c == CEnclK(ev.x.f, zs[i][1], zs[i][2], ev.x.w, KC)
                                        IN {EnclMember(re, c[1]), EnclMember(im, c[2])} : i \in 1..Len(zs) })
          [] ev.op = "ivrel" ->
               LET v == Iv(ev.o)
